@@ -145,6 +145,12 @@ struct Enumerated {
     held: Vec<String>,
     /// 2 resolves x 1 publish, 1 resolve x 2 publishes
     large: Vec<String>,
+    /// three concurrent tasks over TWO keys, all interleavings: 1 lookup(K) x 1 publish(K) x 1 publish(K')
+    /// and 1 lookup(K) x 2 publishes(K') (210 each)
+    multikey: Vec<String>,
+    /// more two-/three-key templates (K' cached before; lookups for both keys x a publish; 4 concurrent
+    /// tasks; the lookup of `multikey` parked inside both of its lock scopes): sampled at random
+    multikey_pool: Vec<String>,
 }
 
 /// Exhaustive part: sequential prefix, all interleavings of the concurrent tasks, sequential suffix.
@@ -218,8 +224,169 @@ fn enumerated() -> &'static Enumerated {
                 held.push(raw_case_h(&tasks, &s));
             }
         }
-        Enumerated { small, held, large }
+        // ---- two keys: a publish for ANOTHER key between the steps of a lookup(K) / publish(K) pair ----
+        // The cache-fill race check of `resolve` counts invalidations of ALL keys; whether a lookup may
+        // fill the cache must not depend on WHICH key was invalidated last, or how many times.
+        let mut multikey = Vec::new();
+        let mut multikey_pool = Vec::new();
+        let k0 = |ts, v| Task::P(0, ts, 0, v);
+        let k1 = |ts, v| Task::P(1, ts, 0, v);
+        let mk: Vec<(Vec<Task>, usize, usize)> = vec![
+            // lookup(K) x publish(K, newer) x publish(K'), then lookups for both keys
+            (vec![k0(1, 1), Task::R(0, 0), k0(2, 2), k1(2, 3), Task::R(0, 0), Task::R(1, 0)], 1, 3),
+            // lookup(K) x 2 publishes(K') (newer, then newer again), nothing published for K meanwhile
+            (vec![k0(1, 1), Task::R(0, 0), k1(1, 2), k1(2, 3), Task::R(0, 0), Task::R(1, 0)], 1, 3),
+        ];
+        let mk_pool: Vec<(Vec<Task>, usize, usize)> = vec![
+            // first template with K' already published and cached before
+            (vec![k0(1, 1), k1(1, 4), Task::R(1, 0), Task::R(0, 0), k0(2, 2), k1(2, 3), Task::R(0, 0), Task::R(1, 0)], 3, 3),
+            // lookups for BOTH keys x publish(K)
+            (vec![k0(1, 1), k1(1, 4), Task::R(0, 0), Task::R(1, 0), k0(2, 2), Task::R(0, 0), Task::R(1, 0)], 2, 3),
+            // lookup(K) x publish(K) x 2 publishes(K')
+            (vec![k0(1, 1), Task::R(0, 0), k0(2, 2), k1(1, 3), k1(2, 4), Task::R(0, 0), Task::R(1, 0)], 1, 4),
+            // lookup(K) x publish(K) x publish(K') x publish(K'') (three keys)
+            (vec![k0(1, 1), Task::R(0, 0), k0(2, 2), k1(2, 3), Task::P(2, 2, 0, 4), Task::R(0, 0), Task::R(2, 0)], 1, 4),
+            // lookup(K) x lookup(K') x publish(K) x publish(K')
+            (vec![k0(1, 1), k1(1, 5), Task::R(0, 0), Task::R(1, 0), k0(2, 2), k1(2, 3), Task::R(0, 0), Task::R(1, 0)], 2, 4),
+        ];
+        for (set, out) in [(&mk, &mut multikey), (&mk_pool, &mut multikey_pool)] {
+            for (tasks, lead, conc) in set.iter() {
+                let pre = lead_steps(tasks, *lead);
+                let ids: Vec<usize> = (*lead..lead + conc).collect();
+                let mut counts: Vec<usize> = ids.iter().map(|i| tasks[*i].steps()).collect();
+                let mut ms = Vec::new();
+                merges(&ids, &mut counts, &mut Vec::new(), &mut ms);
+                for m in ms {
+                    let mut s = pre.clone();
+                    s.extend(m);
+                    out.push(raw_case(tasks, &s));
+                }
+            }
+        }
+        // held variants of the first two: the lookup parked inside both of its lock scopes (5 entries)
+        // merged with the 2 + 2 entries of the publishes (756 each)
+        for (tasks, lead, _) in mk.iter().take(2) {
+            let pre: Vec<(usize, bool)> = lead_steps(tasks, *lead).into_iter().map(|i| (i, false)).collect();
+            let r = *lead;
+            let rs = [(r, true), (r, false), (r, false), (r, true), (r, false)];
+            let mut ps = Vec::new();
+            merges2(&[(r + 1, false), (r + 1, false)], &[(r + 2, false), (r + 2, false)], &mut Vec::new(), &mut ps);
+            for p in ps {
+                let mut ms = Vec::new();
+                merges2(&rs, &p, &mut Vec::new(), &mut ms);
+                for m in ms {
+                    let mut s = pre.clone();
+                    s.extend(m);
+                    multikey_pool.push(raw_case_h(tasks, &s));
+                }
+            }
+        }
+        Enumerated { small, held, large, multikey, multikey_pool }
     })
+}
+
+/// Random two-key case: optional sequential publishes (and a lookup that caches the zone) for keys
+/// K, K'; then 3-5 concurrent tasks drawn from lookups and newer publishes for both keys with at
+/// least one lookup and publishes for at least two different keys, merged uniformly at random (so a
+/// publish for the other key can fall between any two steps of a lookup / publish pair); then
+/// lookups for every key.
+fn gen_multikey(rng: &mut Rng) -> String {
+    let nkeys = if rng.chance(1, 4) { 3u64 } else { 2 };
+    let mut tasks: Vec<Task> = Vec::new();
+    let mut val = 0u64;
+    let mut ts = vec![0u64; nkeys as usize];
+    for k in 0..nkeys {
+        if rng.chance(3, 4) {
+            val += 1;
+            ts[k as usize] = 1;
+            tasks.push(Task::P(k as u8, 1, 0, val));
+            if rng.chance(1, 3) {
+                tasks.push(Task::R(k as u8, 0));
+            }
+        }
+    }
+    let lead = tasks.len();
+    let nconc = rng.range(3, 5) as usize;
+    loop {
+        tasks.truncate(lead);
+        let mut ts2 = ts.clone();
+        let mut v2 = val;
+        for _ in 0..nconc {
+            let k = rng.below(nkeys);
+            if rng.chance(2, 5) {
+                tasks.push(Task::R(k as u8, if rng.chance(9, 10) { 0 } else { 1 }));
+            } else {
+                v2 += 1;
+                // mostly newer than everything before for that key, sometimes a tie or older
+                let t = match rng.below(8) {
+                    0 => ts2[k as usize].max(1),
+                    1 => ts2[k as usize].max(2) - 1,
+                    _ => ts2[k as usize] + 1,
+                };
+                ts2[k as usize] = ts2[k as usize].max(t);
+                tasks.push(Task::P(k as u8, t, 0, v2));
+            }
+        }
+        let conc = &tasks[lead..];
+        let lookups = conc.iter().filter(|t| matches!(t, Task::R(..))).count();
+        let mut pk: Vec<u8> = conc.iter().filter_map(|t| if let Task::P(k, ..) = t { Some(*k) } else { None }).collect();
+        pk.sort();
+        pk.dedup();
+        if lookups >= 1 && pk.len() >= 2 {
+            break;
+        }
+    }
+    let end = tasks.len();
+    for k in 0..nkeys {
+        tasks.push(Task::R(k as u8, 0));
+    }
+    let mut sched: Vec<usize> = Vec::new();
+    for i in 0..lead {
+        for _ in 0..tasks[i].steps() {
+            sched.push(i);
+        }
+    }
+    // uniformly random merge: pick the next task with probability proportional to its remaining steps
+    let mut left: Vec<usize> = (lead..end).map(|i| tasks[i].steps()).collect();
+    loop {
+        let total: usize = left.iter().sum();
+        if total == 0 {
+            break;
+        }
+        let mut x = rng.below(total as u64) as usize;
+        let mut j = 0;
+        while x >= left[j] {
+            x -= left[j];
+            j += 1;
+        }
+        left[j] -= 1;
+        sched.push(lead + j);
+    }
+    let mut sched: Vec<(usize, bool)> = sched.into_iter().map(|i| (i, false)).collect();
+    if rng.chance(1, 4) {
+        add_holds(rng, &tasks, &mut sched);
+    }
+    raw_case_h(&tasks, &sched)
+}
+
+/// Lookups are parked inside their lock scopes at random entries; each hold needs one more entry of
+/// that task for the body of the scope, placed anywhere later (or left to the final drain).
+fn add_holds(rng: &mut Rng, tasks: &[Task], sched: &mut Vec<(usize, bool)>) {
+    let nt = tasks.len();
+    let mut k = 0;
+    while k < sched.len() {
+        let (t, _) = sched[k];
+        if t < nt && matches!(tasks[t], Task::R(..)) && rng.chance(1, 2) {
+            sched[k].1 = true;
+            if rng.chance(3, 4) {
+                let at = rng.range(k as u64 + 1, sched.len() as u64) as usize;
+                sched.insert(at, (t, rng.chance(1, 8)));
+            }
+        } else if rng.chance(1, 12) {
+            sched[k].1 = true; // hold flag on a step without a lock scope of its own: no effect
+        }
+        k += 1;
+    }
 }
 
 fn generate(rng: &mut Rng, i: u64, n: u64) -> String {
@@ -234,8 +401,18 @@ fn generate(rng: &mut Rng, i: u64, n: u64) -> String {
         return e.held[i].clone();
     }
     let i = i - e.held.len();
+    if n >= 1500 && i < e.multikey.len() {
+        return e.multikey[i].clone();
+    }
+    let i = if n >= 1500 { i.saturating_sub(e.multikey.len()) } else { i };
     if n >= 1500 && i < e.large.len() {
         return e.large[i].clone();
+    }
+    // random part: 1/4 a sample of the larger two-key templates, 1/4 random two-key task lists
+    match rng.below(4) {
+        0 => return rng.pick(&e.multikey_pool).clone(),
+        1 => return gen_multikey(rng),
+        _ => {}
     }
     let nt = rng.range(2, 6) as usize;
     let nkeys = if rng.chance(2, 3) { 1 } else { 2 };
@@ -274,20 +451,7 @@ fn generate(rng: &mut Rng, i: u64, n: u64) -> String {
     // 2 of 5: lookups are parked inside their lock scopes; each hold needs one more entry of that
     // task for the body of the scope, placed anywhere later (or left to the final drain)
     if rng.chance(2, 5) {
-        let mut k = 0;
-        while k < sched.len() {
-            let (t, _) = sched[k];
-            if t < nt && matches!(tasks[t], Task::R(..)) && rng.chance(1, 2) {
-                sched[k].1 = true;
-                if rng.chance(3, 4) {
-                    let at = rng.range(k as u64 + 1, sched.len() as u64) as usize;
-                    sched.insert(at, (t, rng.chance(1, 8)));
-                }
-            } else if rng.chance(1, 12) {
-                sched[k].1 = true; // hold flag on a step without a lock scope of its own: no effect
-            }
-            k += 1;
-        }
+        add_holds(rng, &tasks, &mut sched);
     }
     raw_case_h(&tasks, &sched)
 }
